@@ -27,7 +27,7 @@ def run(c):
     subst = None
     if thorough:
         subst = dict(MaxBits=2100, MaxBytes=300, BigBits="{2047, 2048, 2049, 4095, 4096, 4097, 16384, 65535, 131072}", BigBytes="{511, 512, 513, 1024, 4096}",
-                     GridBits="{0, 1, 7, 8, 31, 32, 33, 40, 63, 64, 65, 67, 128, 200}", Reps=4, LongOctets="{4097, 4112, 8193, 65535}", SeqGroups=12)
+                     GridBits="{0, 1, 7, 8, 31, 32, 33, 40, 63, 64, 65, 67, 128, 200}", Reps=4, LongOctets="{4097, 4112, 8193, 65535, 65536, 65537, 131079}", SeqGroups=12)
     cases, events = run_value_conformance(c, "cipher", "Trace_C06", "MC_C06_gen", "MC_C06_gen", subst, shards=14 if thorough else 12)
     c.cov["distinct_nontrivial"] = len(c._distinct)
     c.cov["rule"] = ("cases = calls of the real ciphering entry points; distinct non-trivial = distinct (operation, algorithm, key, COUNT, bearer, "
